@@ -166,6 +166,9 @@ def run(ctx):
                      'between-macro-and-chars rule is off', 3)
     ctx.rule('R03i', 'whitespace-only chars nodes are dropped exactly when the '
                      'between-latex-constructs rule is off; comment post-space follows after-comment', 3)
+    ctx.rule('R03l', 'sibling agreement in apply_simplify_repl: the %s, %(n)s and environment branches all render '
+                     'a macro argument through _groupnodecontents_to_text (groups and formatting are '
+                     'transparent in every replacement style)', 3)
     ctx.rule('R03k', 'the whitespace-policy presets are process-wide tables: a value that may be one of them '
                      '(returned uncopied by the policy parser and stored on the converter) is never written '
                      'in place -- one converter\'s options must not change the rules of the next', 1)
@@ -508,6 +511,39 @@ def run(ctx):
                    '%r -> U+%04X' % (sc, ord(want_)),
                    'specials %r renders as %r (documented: U+%04X)' % (sc, e['repl'] if e else None, ord(want_)),
                    construct='specials ' + sc)
+    # ------------------------------------------------------------ R03l (sibling agreement)
+    asr = meths.get('apply_simplify_repl')
+    if asr is None:
+        raise AnalysisError('anchor vanished: apply_simplify_repl')
+    scopes = [(asr, 'nodeargs')]
+    for c_ in iter_own(asr):
+        if isinstance(c_, ast.Call) and is_self_attr(c_.func) and c_.func.attr in meths and c_.func.attr.startswith('_'):
+            h_ = meths[c_.func.attr]
+            for a_, pn in zip(c_.args, [x.arg for x in h_.args.args][1:]):
+                if isinstance(a_, ast.Name) and a_.id == 'nodeargs':
+                    scopes.append((h_, pn))
+    sites = []
+    for f_, lname in scopes:
+        for comp in [x for x in ast.walk(f_) if isinstance(x, (ast.ListComp, ast.GeneratorExp, ast.DictComp))]:
+            for g in comp.generators:
+                if isinstance(g.iter, ast.Name) and g.iter.id == lname and isinstance(g.target, ast.Name):
+                    elt = comp.value if isinstance(comp, ast.DictComp) else comp.elt
+                    rend = [c2 for c2 in ast.walk(elt) if isinstance(c2, ast.Call) and any(
+                        isinstance(a2, ast.Name) and a2.id == g.target.id for a2 in c2.args)]
+                    if rend:
+                        sites.append((comp, rend[0]))
+    for comp, r_ in sites:
+        ok_ = is_self_attr(r_.func) and r_.func.attr == '_groupnodecontents_to_text'
+        ctx.decide('R03l', ok_, m, comp, 'argument rendered with _groupnodecontents_to_text',
+                   'in this branch of apply_simplify_repl the macro arguments are rendered with %s while the '
+                   'sibling branches use self._groupnodecontents_to_text: with keep_braced_groups=True the braces '
+                   'of the argument groups appear in the text of %%s-style replacements (\\frac{ab}{cd} -> '
+                   '{ab}/{cd}) but not of %%(n)s-style ones' % short(r_.func),
+                   construct='apply_simplify_repl: ' + short(comp, 70))
+    if len(sites) < 3:
+        ctx.unknown('R03l', m, asr, 'only %d argument-rendering sites found' % len(sites),
+                    construct='apply_simplify_repl: argument rendering')
+
     # ------------------------------------------------------------ R03k
     _shared_preset_writes(ctx, m)
     ctx.assume('no rendered string is computed: whitespace ownership between constructs and the '
